@@ -9,6 +9,7 @@ CONSTANTS
   FullRegs = 2
   MaxRegs = 5
   SampleMod <- ModThorough
+  SampleModEnv <- ModEnvThorough
   BigLen = 3
 INVARIANT NoAmbiguousPair
 INVARIANT LookupFirstHit
